@@ -117,6 +117,26 @@ CheckZero(st, xv, x) ==
         wt == New(r.st, wv)
     IN [st |-> Emit(Emit(wt.st, x, Var(wt.w), LSub(One, Var(r.w))), x, Var(r.w), Zero), w |-> r.w, v |-> rv]
 
+\* LinComb.assert_positive() = to_bits() at the default width;  assert_lt(other): Python-level check, then
+\* (other - self - 1).assert_positive()
+AssertLt(st, av, a, bv, b) ==
+    IF ~Ign /\ av >= bv THEN Fail(st) ELSE ToBits(st, bv - av - 1, LAdd(LSub(b, a), LScale(One, -1)))
+
+\* LinComb.__divmod__(divisor) with a secret divisor: quotient and remainder hints, quo * d = self - rem,
+\* rem < d, rem >= 0.  (The quotient itself is not range-checked: known finding C02-divmod-quotient-free.)
+DivMod(st, av, a, dv, d) ==
+    IF dv = 0 THEN [st |-> Fail(st), q |-> 0, qv |-> 0, r |-> 0, rv |-> 0]
+    ELSE LET qv == IF dv > 0 THEN av \div dv ELSE (-av) \div (-dv)
+             q  == New(st, qv)
+             pr == New(q.st, qv * dv)                               \* res = quo * divisor (1 constraint, unguarded)
+             s1 == Emit(pr.st, Var(q.w), d, Var(pr.w))
+             rv == av - qv * dv
+             r  == New(s1, rv)
+             s2 == AddCon(r.st, qv, Var(q.w), dv, d, av - rv, LSub(a, Var(r.w)), TRUE)
+             s3 == IF s2.raised THEN s2 ELSE AssertLt(s2, rv, Var(r.w), dv, d)
+             s4 == IF s3.raised THEN s3 ELSE ToBits(s3, rv, Var(r.w))
+         IN [st |-> s4, q |-> q.w, qv |-> qv, r |-> r.w, rv |-> rv]
+
 ---------------------------------------------------------------------------
 Init == /\ wit = <<>> /\ cons = <<>> /\ objs = <<>> /\ gstack = <<>> /\ uign = FALSE /\ raised = FALSE /\ hist = <<>>
 
@@ -150,6 +170,51 @@ ACheckPos(i) == Room(2 * BL + 4) /\ LET r == CheckPos(St0, objs[i].v, objs[i].lc
 ALt(i, j) == Room(2 * BL + 4) /\ LET xv == objs[j].v - objs[i].v - 1 x == LAdd(LSub(objs[j].lc, objs[i].lc), LScale(One, -1)) r == CheckPos(St0, xv, x) IN
              Commit(r.st, <<Obj(r.v, Var(r.w), "bool")>>, [a |-> "lt", i |-> i, j |-> j, v |-> 0])
 
+\* x / c with a plain integer c # 0: exact quotient, or (checks off) the field quotient; no constraint
+ATrueDivC(i, c) ==
+    LET v == objs[i].v IN
+    IF IsGuard /\ v % c = 0
+    THEN Commit(St0, <<Obj(v \div c, LScale(objs[i].lc, Inv(c)), "int")>>, [a |-> "truedivc", i |-> i, j |-> 0, v |-> c])
+    ELSE IF Ign THEN Commit(St0, <<Obj((v * Inv(c)) % P, LScale(objs[i].lc, Inv(c)), "int")>>, [a |-> "truedivc", i |-> i, j |-> 0, v |-> c])
+    ELSE Commit(Fail(St0), <<>>, [a |-> "truedivc", i |-> i, j |-> 0, v |-> c])
+
+\* x / y with a secret y: hint + one (guard-aware) constraint y * res = x
+ATrueDiv(i, j) ==
+    Room(2) /\
+    LET xv == objs[i].v yv == objs[j].v IN
+    IF yv = 0 THEN Commit(Fail(St0), <<>>, [a |-> "truediv", i |-> i, j |-> j, v |-> 0])
+    ELSE IF (IsGuard /\ xv % (IF yv < 0 THEN -yv ELSE yv) = 0) \/ Ign
+    THEN LET qv == IF IsGuard /\ xv % (IF yv < 0 THEN -yv ELSE yv) = 0 THEN (IF yv > 0 THEN xv \div yv ELSE (-xv) \div (-yv)) ELSE 0
+             n == New(St0, qv) IN
+         Commit(AddCon(n.st, yv, objs[j].lc, qv, Var(n.w), xv, objs[i].lc, TRUE), <<Obj(qv, Var(n.w), "int")>>, [a |-> "truediv", i |-> i, j |-> j, v |-> 0])
+    ELSE Commit(Fail(St0), <<>>, [a |-> "truediv", i |-> i, j |-> j, v |-> 0])
+
+\* divmod(x, y) with a secret y
+ADivMod(i, j) ==
+    Room(4 * BL + 10) /\
+    LET r == DivMod(St0, objs[i].v, objs[i].lc, objs[j].v, objs[j].lc) IN
+    Commit(r.st, <<Obj(r.qv, Var(r.q), "int"), Obj(r.rv, Var(r.r), "int")>>, [a |-> "divmod", i |-> i, j |-> j, v |-> 0])
+
+\* if_then_else(cond, t, f) on computed values: f + cond * (t - f), one multiplication (cond.lc first)
+AIte(c, i, j) ==
+    objs[c].k = "bool" /\
+    IF i = j       \* `if truev is falsev: return truev` -- the very same object comes back, nothing new exists
+    THEN Commit(St0, <<>>, [a |-> "ite", i |-> i, j |-> j, v |-> c])
+    ELSE Room(1) /\
+         LET dv == objs[i].v - objs[j].v
+             n == New(St0, objs[c].v * dv)
+             st == Emit(n.st, objs[c].lc, LSub(objs[i].lc, objs[j].lc), Var(n.w)) IN
+         Commit(st, <<Obj(objs[j].v + objs[c].v * dv, LAdd(objs[j].lc, Var(n.w)), "int")>>, [a |-> "ite", i |-> i, j |-> j, v |-> c])
+
+\* assert_nonzero: inverse hint (or 0 with checks off), constraint x * wit = ONE without the integer check
+AAssertNonzero(i) ==
+    Room(2) /\
+    LET v == objs[i].v IN
+    IF IsGuard /\ v # 0
+    THEN LET n == New(St0, Inv(v)) IN Commit(AddCon(n.st, v, objs[i].lc, Inv(v), Var(n.w), OneObj.v, OneObj.lc, FALSE), <<>>, [a |-> "assert_nonzero", i |-> i, j |-> 0, v |-> 0])
+    ELSE IF Ign THEN LET n == New(St0, 0) IN Commit(AddCon(n.st, v, objs[i].lc, 0, Var(n.w), OneObj.v, OneObj.lc, FALSE), <<>>, [a |-> "assert_nonzero", i |-> i, j |-> 0, v |-> 0])
+    ELSE Commit(Fail(St0), <<>>, [a |-> "assert_nonzero", i |-> i, j |-> 0, v |-> 0])
+
 \* guarded regions: add_guard with a boolean-typed (or 0/1 integer) secret condition; nested: guard & cond on the 0/1 LinCombs
 \* (LinComb.__and__ of two secrets decomposes both: not modelled -- regions are entered only from the top level here)
 AEnter(i) == /\ gstack = <<>> /\ objs[i].v \in {0, 1} /\ ~raised
@@ -171,7 +236,10 @@ Next == /\ Len(hist) < MaxLen /\ ~raised
         /\ \/ \E v \in Vals : APriv(v)
            \/ \E b \in {0, 1} : ABool(b)
            \/ \E i, j \in DOMAIN objs : AAdd(i, j) \/ ASub(i, j) \/ AMul(i, j)
-           \/ \E i, j \in Ints : ALt(i, j)
+           \/ \E i, j \in Ints : ALt(i, j) \/ ATrueDiv(i, j) \/ ADivMod(i, j)
+           \/ \E i \in Ints, c \in {2, 3} : ATrueDivC(i, c)
+           \/ \E c \in DOMAIN objs, i, j \in Ints : AIte(c, i, j)
+           \/ \E i \in Ints : AAssertNonzero(i)
            \/ \E i \in DOMAIN objs, c \in Consts : AAddC(i, c) \/ AMulC(i, c)
            \/ \E i \in DOMAIN objs : AAssertZero(i) \/ ACheckZero(i) \/ ACheckPos(i) \/ AEnter(i)
            \/ \E i \in Ints : AToBits(i)
